@@ -249,10 +249,21 @@ func runResumption(c *simkit.Choice, r *simkit.Rec) {
 		out := &connOut{}
 		capt := simkit.NetCfg{Capture: true}
 		a, b := s.NewConnPair("c"+tag, "s"+tag, capt, capt)
+		// every connection to one server reaches the same address; names served by one
+		// farm (shared ticket key) share the address as well
+		peerAddr := "192.0.2.10:443"
+		if sv.second && !sharedKey {
+			peerAddr = "192.0.2.20:443"
+		}
+		if sv.name == "B" {
+			peerAddr = "192.0.2.11:443"
+		}
+		a.PeerAddr = peerAddr
 		if fault > 0 {
 			// an in-path fault on the server's last flight: client <-> (ra | rb) <-> server
 			var ra, rb *simkit.Conn
 			a, ra = s.NewConnPair("c"+tag, "rc"+tag, capt, capt)
+			a.PeerAddr = peerAddr
 			rb, b = s.NewConnPair("rs"+tag, "s"+tag, capt, capt)
 			s.Spawn("relay-c2s"+tag, 2, func() {
 				buf := make([]byte, 2048)
